@@ -102,6 +102,11 @@ pub(crate) fn val16(v: &[u8; heed::VMAX]) -> u128 {
     let a: [u8; 16] = [v[0], v[1], v[2], v[3], v[4], v[5], v[6], v[7], v[8], v[9], v[10], v[11], v[12], v[13], v[14], v[15]];
     u128::from_le_bytes(a)
 }
+/// Bytes 16..32 as one little-endian word.
+pub(crate) fn val16b(v: &[u8; heed::VMAX]) -> u128 {
+    let a: [u8; 16] = [v[16], v[17], v[18], v[19], v[20], v[21], v[22], v[23], v[24], v[25], v[26], v[27], v[28], v[29], v[30], v[31]];
+    u128::from_le_bytes(a)
+}
 /// Mask selecting the first `len` (<= 16) bytes of a `val16` word.
 pub(crate) fn mask16(len: usize) -> u128 {
     if len >= 16 { u128::MAX } else { (1u128 << (8 * len as u32)) - 1 }
@@ -128,11 +133,13 @@ pub(crate) fn frame_except(before: &Snap, after: &Store, exempt: impl Fn(u64) ->
                 }
                 t += 1;
             }
-            // values of non-exempt entries are <= 16 bytes in every harness (sym_store's vmax):
-            // compare them as one masked 128-bit word instead of a byte loop
-            if !found || len != before.vlen[i] || len > 16 {
+            // values of non-exempt entries are <= 32 bytes in every harness: compare them as two
+            // masked 128-bit words instead of a byte loop
+            if !found || len != before.vlen[i] || len > 32 {
                 r = false;
             } else if (val16(&before.vals[i]) ^ val16(&val)) & mask16(len) != 0 {
+                r = false;
+            } else if len > 16 && (val16b(&before.vals[i]) ^ val16b(&val)) & mask16(len - 16) != 0 {
                 r = false;
             }
         }
@@ -254,4 +261,24 @@ pub(crate) fn stub_from_bytes_until_nul(
 /// Stub for `CStr::to_str`: metric names are ASCII in every harness; UTF-8 validation skipped.
 pub(crate) fn stub_cstr_to_str(c: &core::ffi::CStr) -> Result<&str, core::str::Utf8Error> {
     Ok(unsafe { core::str::from_utf8_unchecked(c.to_bytes()) })
+}
+
+/// Stub for `_mm_blendv_ps` (Kani 0.68 does not support `simd_select`): lane-wise per Intel's
+/// definition -- the sign bit of each mask lane selects the lane of `b`, otherwise of `a`.
+#[cfg(target_arch = "x86_64")]
+pub(crate) unsafe fn stub_blendv_ps(
+    a: core::arch::x86_64::__m128,
+    b: core::arch::x86_64::__m128,
+    mask: core::arch::x86_64::__m128,
+) -> core::arch::x86_64::__m128 {
+    let a: [u32; 4] = core::mem::transmute(a);
+    let b: [u32; 4] = core::mem::transmute(b);
+    let m: [u32; 4] = core::mem::transmute(mask);
+    let r = [
+        if m[0] >> 31 != 0 { b[0] } else { a[0] },
+        if m[1] >> 31 != 0 { b[1] } else { a[1] },
+        if m[2] >> 31 != 0 { b[2] } else { a[2] },
+        if m[3] >> 31 != 0 { b[3] } else { a[3] },
+    ];
+    core::mem::transmute(r)
 }
